@@ -263,6 +263,33 @@ func genC14Cases(c *orch.Ctx) []*c14Case {
 			}
 		}
 	}
+	// every subset of the four oauth2 flows (plus an openIdConnect scheme), under both spec versions
+	flowNames := []string{"implicit", "password", "clientCredentials", "authorizationCode"}
+	for mask := 0; mask < 16; mask++ {
+		for vi, ver := range []string{"3.0.0", "3.1.0"} {
+			p := base()
+			p.Config.OpenAPI = ver
+			sc := synth.SecScheme{Name: "oauthScheme", Type: "oauth2", Description: "OAuth 2", Flows: map[string]*synth.OAuthFlow{}}
+			for fi, fn := range flowNames {
+				if mask&(1<<fi) == 0 {
+					continue
+				}
+				f := &synth.OAuthFlow{Scopes: map[string]string{"read": "r", fn: "only " + fn}}
+				if fn == "implicit" || fn == "authorizationCode" {
+					f.AuthorizationURL = "https://auth.example.com/" + fn
+				}
+				if fn != "implicit" {
+					f.TokenURL = "https://auth.example.com/" + fn + "/token"
+				}
+				if (mask+vi)%3 == 0 {
+					f.Scopes = nil // "scopes" is required by the document format: must be reported or emitted, never crash
+				}
+				sc.Flows[fn] = f
+			}
+			p.Config.Schemes = append(p.Config.Schemes, sc, synth.SecScheme{Name: "oidcScheme", Type: "openIdConnect", Description: "OIDC", OpenIDConnectURL: "https://id.example.com/.well-known/openid-configuration"})
+			cases = append(cases, &c14Case{Grammar: "config", Label: fmt.Sprintf("oauth2 flows mask=%04b openapi=%s", mask, ver), Project: p, Argv: c14Commands[vi%2]})
+		}
+	}
 	raw := []string{"", "{", "[]", "null", "42", "\"str\"", "{\"commonConfig\": }", "// only a comment\n", "\ufeff{}", "{'commonConfig':{'controllerGlobs':['./ctl/*.go',],},}", "{commonConfig:{controllerGlobs:[1,2,3]}}", "{\"routesConfig\":{\"engine\":[\"gin\"]}}", strings.Repeat("[", 5000), "{\"a\":" + strings.Repeat("{\"a\":", 2000) + "1" + strings.Repeat("}", 2000) + "}"}
 	for k, rc := range raw {
 		p := base()
